@@ -11,6 +11,8 @@ sys.path.insert(0, os.path.dirname(os.path.abspath(__file__)))
 import importlib
 import builtin as _b
 importlib.reload(_b)
+import environment as _e
+importlib.reload(_e)
 P = ['C04']
 PRELUDE = r'''
 use crate::vm::heap::Heap;
@@ -133,7 +135,23 @@ pub assume_specification [Cell::is_quasiquote] (c: &Cell) -> (r: bool);
 /// an argument's index is below the argument count (binding_location searches self.args)
 pub assume_specification [Lambda::binding_location] (l: &Lambda, sym: &VCell) -> (r: crate::vm::environment::BindingLocation)
     ensures r matches crate::vm::environment::BindingLocation::Argument(n) ==> n < l.args@.len();
-pub assume_specification<T: Into<usize>> [crate::vm::environment::GlobalEnvironment::get_binding] (g: &mut crate::vm::environment::GlobalEnvironment, sym: T) -> (r: usize);
+/// the shared models of the global environment (specs/environment.py; unit `globenv` proves them on the real bodies of
+/// get_binding / put_slot / get_slot), over this module's uninterpreted view.  Compilation may *create* slots (a global that is
+/// mentioned gets one), it never gives one a value: values are bound by the MOV instructions the compiled code executes.
+pub uninterp spec fn genv_slots(g: crate::vm::environment::GlobalEnvironment) -> Seq<VCell>;
+pub open spec fn genv_kept(g0: crate::vm::environment::GlobalEnvironment, g1: crate::vm::environment::GlobalEnvironment) -> bool {
+GENV_KEPT_BODY
+}
+pub assume_specification<T: Into<usize>> [crate::vm::environment::GlobalEnvironment::get_binding] (g: &mut crate::vm::environment::GlobalEnvironment, sym: T) -> (r: usize)
+    ensures GENV_GET_BINDING;
+/// declared although the compiler does not call them (yet): a compiler that did would be decided, not refused
+pub assume_specification [crate::vm::environment::GlobalEnvironment::put_slot] (g: &mut crate::vm::environment::GlobalEnvironment, slot: usize, v: VCell)
+    requires slot < genv_slots(*old(g)).len() ensures GENV_PUT_SLOT;
+pub assume_specification [crate::vm::environment::GlobalEnvironment::get_slot] (g: &crate::vm::environment::GlobalEnvironment, slot: usize) -> (r: VCell)
+    requires slot < genv_slots(*g).len() ensures GENV_GET_SLOT;
+/// get takes &mut self but only reads (body: a closure over self inside Option::map, not ingestible): assumed
+pub assume_specification<T: Into<usize>> [crate::vm::environment::GlobalEnvironment::get] (g: &mut crate::vm::environment::GlobalEnvironment, sym: T) -> (r: Option<VCell>)
+    ensures genv_slots(*final(g)) == genv_slots(*old(g));
 pub assume_specification<T: Into<usize>> [VCell::env_slot] (slot: T) -> (r: VCell);
 pub assume_specification [VCell::void] () -> (r: VCell);
 pub assume_specification<T: Into<Vec<VCell>>> [VCell::vector] (x: T) -> (r: VCell);
@@ -145,10 +163,10 @@ pub assume_specification [crate::vm::transform::Transform::keyword] (t: &crate::
 // (bodies outside what Verus ingests: closures capturing &mut self in compile_lambda, ...).  Only the frame is assumed:
 // they append to the bytecode.  Nothing is assumed about the tail flag.
 pub assume_specification [Vm::compile_quasiquote] (vm: &mut Vm, lambda: &mut Lambda, expr: &Cell, depth: usize) -> (r: Result<(), Error>)
-    ensures r is Ok ==> extends(*old(lambda), *final(lambda)), final(vm).regs() == old(vm).regs() && final(vm).stack_spec() == old(vm).stack_spec();
+    ensures r is Ok ==> extends(*old(lambda), *final(lambda)), final(vm).regs() == old(vm).regs() && final(vm).stack_spec() == old(vm).stack_spec(), genv_kept(old(vm).globenv_spec(), final(vm).globenv_spec());
 pub assume_specification [Vm::compile_set] (vm: &mut Vm, lambda: &mut Lambda, tail: bool, expr: &Cell) -> (r: Result<(), Error>)
-    ensures r is Ok ==> extends(*old(lambda), *final(lambda)), final(vm).regs() == old(vm).regs() && final(vm).stack_spec() == old(vm).stack_spec();
-pub assume_specification [Vm::compile_formal_arguments] (vm: &mut Vm, formal_args: &Cell) -> (r: Result<(Vec<VCell>, bool), Error>) ensures final(vm).regs() == old(vm).regs() && final(vm).stack_spec() == old(vm).stack_spec();
+    ensures r is Ok ==> extends(*old(lambda), *final(lambda)), final(vm).regs() == old(vm).regs() && final(vm).stack_spec() == old(vm).stack_spec(), genv_kept(old(vm).globenv_spec(), final(vm).globenv_spec());
+pub assume_specification [Vm::compile_formal_arguments] (vm: &mut Vm, formal_args: &Cell) -> (r: Result<(Vec<VCell>, bool), Error>) ensures final(vm).regs() == old(vm).regs() && final(vm).stack_spec() == old(vm).stack_spec(), genv_kept(old(vm).globenv_spec(), final(vm).globenv_spec());
 pub assume_specification<'a> [crate::vm::environment::free_symbols] (c: &'a Cell) -> (r: Result<std::collections::HashSet<&'a Cell>, Error>);
 pub assume_specification<'a> [crate::vm::environment::internally_defined_symbols] (c: &'a Cell) -> (r: Result<std::collections::HashSet<&'a Cell>, Error>);
 pub assume_specification [Lambda::new_from_iof] (args: Vec<VCell>, internally_defined: Vec<VCell>, iof: &Lambda, free_symbols: &[VCell], is_vararg: bool) -> (r: Lambda);
@@ -158,7 +176,7 @@ pub assume_specification [Lambda::set_desc] (l: &mut Lambda, c: Cell) ensures fi
 pub uninterp spec fn transformed(h: Heap, g: crate::vm::environment::GlobalEnvironment, e: Cell) -> Cell;
 pub open spec fn vm_transformed(vm: Vm, e: Cell) -> Cell { transformed(vm.heap_spec(), vm.globenv_spec(), e) }
 pub assume_specification [Vm::transform] (vm: &mut Vm, expr: &Cell) -> (r: Result<Cell, Error>)
-    ensures r matches Ok(c) ==> c == vm_transformed(*old(vm), *expr), final(vm).regs() == old(vm).regs() && final(vm).stack_spec() == old(vm).stack_spec();
+    ensures r matches Ok(c) ==> c == vm_transformed(*old(vm), *expr), final(vm).regs() == old(vm).regs() && final(vm).stack_spec() == old(vm).stack_spec(), genv_kept(old(vm).globenv_spec(), final(vm).globenv_spec());
 
 /// index form of `extends`
 pub proof fn lemma_extends_index(a: Lambda, b: Lambda, i: int) requires extends(a, b), 0 <= i < a.bc@.len() ensures b.bc@[i] == a.bc@[i] {
@@ -170,11 +188,18 @@ pub proof fn lemma_extends_trans(a: Lambda, b: Lambda, c: Lambda) requires exten
 }
 '''
 
+PRELUDE = (PRELUDE.replace('GENV_KEPT_BODY', _e.inst(_e.KEPT_MODEL, 'genv_slots', 'genv_kept'))
+           .replace('GENV_GET_BINDING', _e.inst(_e.GET_BINDING_MODEL, 'genv_slots', 'genv_kept', g0='*old(g)', g1='*final(g)', r0='r'))
+           .replace('GENV_PUT_SLOT', _e.inst(_e.PUT_SLOT_MODEL, 'genv_slots', 'genv_kept', g0='*old(g)', g1='*final(g)'))
+           .replace('GENV_GET_SLOT', _e.inst(_e.GET_SLOT_MODEL, 'genv_slots', 'genv_kept', g0='*g', r0='r')))
 PRELUDE = PRELUDE.replace('PUT_MODEL_BODY', _b.PUT_MODEL_TEMPLATE.replace('DEREF', 'heap_deref').replace('LIVE', 'heap_live'))
 NODEC = '#[verifier::exec_allows_no_decreases_clause]'
 EXT = (P, 'r is Ok ==> extends(*old(lambda), *final(lambda))')
 # the compiler does not touch the machine registers (eval moves the instruction pointer back after compiling)
 REGS = (P + ['C07'], 'final(self).regs() == old(self).regs() && final(self).stack_spec() == old(self).stack_spec()')
+# ... and binds nothing: every global keeps its value, globals that appear are undefined (C07: a form that fails to compile, or fails
+# before reaching a definition, must not have performed that definition)
+GENV = (['C07'], 'genv_kept(old(self).globenv_spec(), final(self).globenv_spec())')
 
 UNITS = [{
     # the two Lambda methods the compile contracts rest on, verified against their bodies
@@ -207,15 +232,15 @@ pub assume_specification [crate::vm::environment::EnvironmentMap::new] () -> (r:
         # the emitter: an application compiled in tail position ends in TCALL, otherwise in CALL
         'impl Vm::compile_runtime_procedure_application': {
             'props': P, 'attrs': NODEC,
-            'ensures': [REGS, EXT, (P, 'r is Ok ==> ends_in_call(*final(lambda), tail)')],
-            'loops': {0: 'invariant self.regs() == old(self).regs(), self.stack_spec() == old(self).stack_spec(), extends(*old(lambda), *lambda), (n as int) + spine(*rest) <= spine(*expr), spine(*expr) < usize::MAX,'},
+            'ensures': [REGS, GENV, EXT, (P, 'r is Ok ==> ends_in_call(*final(lambda), tail)')],
+            'loops': {0: 'invariant self.regs() == old(self).regs(), self.stack_spec() == old(self).stack_spec(), genv_kept(old(self).globenv_spec(), self.globenv_spec()), extends(*old(lambda), *lambda), (n as int) + spine(*rest) <= spine(*expr), spine(*expr) < usize::MAX,'},
             'loop_count': 1,
             'body_start': 'proof { axiom_spine_fits(*expr); }',
         },
         # `if`: both branches inherit the flag of the whole form
         'impl Vm::compile_if': {
             'props': P, 'attrs': NODEC,
-            'ensures': [REGS, EXT, (P, 'r is Ok ==> if_compiled(*expr, tail, *old(lambda), *final(lambda))')],
+            'ensures': [REGS, GENV, EXT, (P, 'r is Ok ==> if_compiled(*expr, tail, *old(lambda), *final(lambda))')],
             'body_start': 'proof { axiom_into_self(); }',
             'inserts': [
                 {'anchor': 'lambda.emit(OpCode::Jnt);', 'where': 'before', 'text': 'let ghost l1 = *lambda;'},
@@ -281,27 +306,27 @@ pub assume_specification [crate::vm::environment::EnvironmentMap::new] () -> (r:
                 reveal_strlit("quasiquote"); reveal_strlit("quote"); reveal_strlit("set!");
                 assert forall|t: &str| #[trigger] t@ == "if"@ implies t == "if" by { axiom_str_ext(t, "if"); }
             }''',
-            'ensures': [REGS, EXT,
+            'ensures': [REGS, GENV, EXT,
                         (P, 'r is Ok && rt_app(*expr) ==> ends_in_call(*final(lambda), tail)'),
                         (P, 'r is Ok && if_form(*expr) ==> if_compiled(*expr, tail, *old(lambda), *final(lambda))')],
         },
         'impl Vm::compile_expression': {
             'props': P, 'attrs': NODEC,
-            'ensures': [REGS, EXT,
+            'ensures': [REGS, GENV, EXT,
                         (P, 'r is Ok && rt_app(*expr) ==> ends_in_call(*final(lambda), tail)'),
                         (P, 'r is Ok && if_form(*expr) ==> if_compiled(*expr, tail, *old(lambda), *final(lambda))')],
         },
-        'impl Vm::compile_quote': {'props': P, 'ensures': [REGS, EXT]},
+        'impl Vm::compile_quote': {'props': P, 'ensures': [REGS, GENV, EXT]},
         # top level: compiling never touches the control state (C07: a compile error leaves the machine as it was)
-        'impl Vm::compile_runnable': {'props': P + ['C07'], 'ensures': [REGS]},
+        'impl Vm::compile_runnable': {'props': P + ['C07'], 'ensures': [REGS, GENV]},
         # procedure bodies: the last body expression is compiled with the tail flag set, so a body ending in a call ends in TCALL; Ret
         'impl Vm::compile_lambda': {
             'props': P, 'attrs': NODEC + '\n#[verifier::loop_isolation(false)]',
-            'ensures': [REGS, (P, 'r is Ok ==> extends(*old(iof), *final(iof))'),
+            'ensures': [REGS, GENV, (P, 'r is Ok ==> extends(*old(iof), *final(iof))'),
                         (P, 'r is Ok ==> ((proc_tail_expr(*expr) matches Some(e) && rt_app(e)) ==> closure_ends_in_tail_call(final(self).heap_spec(), *final(iof)))')],
             'body_start': 'proof { axiom_into_self(); }',
             'loops': {0: '''invariant
-                    self.regs() == old(self).regs(), self.stack_spec() == old(self).stack_spec(),
+                    self.regs() == old(self).regs(), self.stack_spec() == old(self).stack_spec(), genv_kept(old(self).globenv_spec(), self.globenv_spec()),
                     (*body is Pair) ==> last_tail(*body) == proc_tail_expr(*expr),
                     !(*body is Pair) ==> ((proc_tail_expr(*expr) matches Some(e) && rt_app(e)) ==> ends_in_call(lambda, true)),'''},
             'loop_count': 1,
@@ -315,13 +340,13 @@ pub assume_specification [crate::vm::environment::EnvironmentMap::new] () -> (r:
             ],
         },
         # frame only: these append to the bytecode (their tail behaviour: they never emit a call themselves)
-        'impl Vm::compile_define': {'props': P, 'attrs': NODEC, 'ensures': [REGS, EXT]},
-        'impl Vm::compile_define_syntax': {'props': P, 'ensures': [REGS, EXT]},
-        'impl Vm::compile_symbol_expression': {'props': P, 'ensures': [REGS, EXT]},
+        'impl Vm::compile_define': {'props': P, 'attrs': NODEC, 'ensures': [REGS, GENV, EXT]},
+        'impl Vm::compile_define_syntax': {'props': P, 'ensures': [REGS, GENV, EXT]},
+        'impl Vm::compile_symbol_expression': {'props': P, 'ensures': [REGS, GENV, EXT]},
         # entry: the flag reaches the expression that is actually compiled (the macro-expanded one)
         'impl Vm::compile': {
             'props': P,
-            'ensures': [REGS, EXT,
+            'ensures': [REGS, GENV, EXT,
                         (P, 'r is Ok && rt_app(vm_transformed(*old(self), *expr)) ==> ends_in_call(*final(lambda), tail)'),
                         (P, 'r is Ok && if_form(vm_transformed(*old(self), *expr)) ==> if_compiled(vm_transformed(*old(self), *expr), tail, *old(lambda), *final(lambda))')],
         },
@@ -377,6 +402,7 @@ pub open spec fn eval_datum(vm: Vm) -> Cell { heap_value(vm.heap_spec(), popped_
             'ensures': [
                 (['C07'], 'final(self).stack_spec() == old(self).stack_spec()'),
                 (['C07'], 'r is Err ==> final(self).regs() == old(self).regs()'),
+                (['C07'], 'crate::vm::compile::genv_kept(old(self).globenv_spec(), final(self).globenv_spec())'),
                 (['C13'], 'r is Ok ==> final(self).regs().0 == old(self).regs().0 && final(self).regs().2 == old(self).regs().2 && final(self).regs().1.1 == 0'),
             ],
             'inserts': [{'anchor': 'let lambda = self.heap.put(lambda);', 'where': 'before', 'text': 'proof { crate::vm::compile::axiom_lambda_cell(lambda); }'}],
